@@ -87,11 +87,11 @@ def crc_term(eng, c):
             kval = zlib.crc32(bytes(items)) & 0xFFFFFFFF
             sym = z3.BitVecVal(kval, 32) if eng.intmode == "bv" else z3.IntVal(kval)
         elif eng.intmode == "bv":
-            sym = z3.BitVec("crc!%d" % len(reg), 32)
+            sym = z3.BitVec(_crc_name(key), 32)
         else:
-            sym = z3.Int("crc!%d" % len(reg))
+            sym = z3.Int(_crc_name(key))
             eng.add_axiom(z3.And(sym >= 0, sym < 2 ** 32))
-            eng.ranges["crc!%d" % len(reg)] = (0, 2 ** 32 - 1)
+            eng.ranges[_crc_name(key)] = (0, 2 ** 32 - 1)
         for k2, (sym2, items2, conc2) in reg.items():
             if concrete and conc2:
                 continue
@@ -106,11 +106,18 @@ def crc_term(eng, c):
     return h
 
 
+def _crc_name(key):
+    """one symbol per hashed content, named by the content's identity (stable across paths and post-conditions)"""
+    import hashlib
+
+    return "crc!" + hashlib.sha1(repr(key).encode()).hexdigest()[:12]
+
+
 def _ikey(x):
     if type(x).__name__ == "Tok":
         return ("T", _ikey(x.value))
     if is_sym(x):
-        return ("t", x.get_id())
+        return ("t", x.hash(), x.num_args(), x.decl().name())
     return ("c", x)
 
 
@@ -839,13 +846,16 @@ def ctx_enter(eng, m):
     return m
 
 
-def ctx_exit(eng, m):
+def ctx_exit(eng, m, exc=None):
+    a = [None, None, None] if exc is None else [ExcClassRef(exc.name, exc.cls) if exc.cls else exc.name, exc, None]
     if isinstance(m, SObj):
         r = m.cls.find("__exit__")
         if r:
-            eng.call_function(r[1], [m, None, None, None], {})
-    elif isinstance(m, Native) and hasattr(m, "__exit__"):
-        m.__exit__(eng, None, None, None)
+            return eng.call_function(r[1], [m] + a, {})
+        return None
+    if isinstance(m, Native) and hasattr(m, "__exit__"):
+        return m.__exit__(eng, *a)
+    return None
 
 
 # ------------------------------------------------------------------------------------ native calls
